@@ -14,7 +14,7 @@ def fail_scenarios(rng, n):
         sc = gen.gen_success_scenario(rng, n_ops=rng.choice([1, 2]))
         op = sc['ops'][0]
         if op['n'] >= 1 and op.get('input') != 'nd':
-            op['fail'] = {'at': [rng.randrange(op['n'])], 'exc': rng.choice(['ValueError', 'Custom', 'KeyError'])}
+            op['fail'] = {'at': [rng.randrange(op['n'])], 'exc': rng.choice(['ValueError', 'Custom', 'KeyError', 'TypeError', 'TypeError'])}
         out.append(sc)
     return out
 
